@@ -179,10 +179,31 @@ class World:
             return s
         self.state.circuit_factory = circuit_factory
         self.state.stream_factory = stream_factory
+        # TorControlProtocol's Event.got_update logs and swallows what a listener raises: note it on the way
+        self.raised = 0
+        self.on_line = None
+        for name in ('_circuit_update', '_stream_update'):
+            self._wrap_update(name)
         self.cons = cons
         self.snap_c = [event_text(e) for e in snap if e[0] == 'c']
         self.snap_s = [event_text(e) for e in snap if e[0] == 's']
         self.pending = []       # commands the library sent and Tor has not answered yet
+
+    def _wrap_update(self, name):
+        orig = getattr(self.state, name)
+
+        def update(line):
+            if self.on_line:
+                self.on_line(True)
+            try:
+                return orig(line)
+            except Exception as ex:
+                self.raised = exc_kind(ex)
+                raise
+            finally:
+                if self.on_line:
+                    self.on_line(False)
+        setattr(self.state, name, update)
 
     # -- object numbers
     def coid(self, c):
@@ -265,13 +286,14 @@ class World:
         return 0
 
     def event(self, e):
-        """deliver one asynchronous event; returns 0 or the kind of the exception that came out"""
+        """deliver one asynchronous event; returns 0 or the kind of the exception TorState raised on it"""
+        self.raised = 0
         try:
             self.send('650 %s %s' % ('CIRC' if e[0] == 'c' else 'STREAM', event_text(e)))
             self.pump()
         except Exception as ex:     # an observation, not a harness failure
             return exc_kind(ex)
-        return 0
+        return self.raised
 
     # -- dump of TorState.circuits / TorState.streams and the public attributes of their members
     def dump(self, raised):
